@@ -19,6 +19,22 @@ def cmpS : Cmp → String
   | .lt => "Lt" | .le => "Le" | .gt => "Gt" | .ge => "Ge" | .eq => "Eq" | .ne => "Ne"
 
 mutual
+/-- token tree as an s-expression (same format as `tok_sexp` of the harness) -/
+partial def tokS : Token → String
+  | .word x => s!"(W {encS x})"
+  | .var x => s!"(V {encS x})"
+  | .fmt x => s!"(F {encS x})"
+  | .num x => s!"(N {encS x})"
+  | .sym x => s!"(Y {encS x})"
+  | .str ps => "(S" ++ String.join (ps.map partS) ++ ")"
+  | .block o ts => s!"(B {encS [o]}" ++ String.join (ts.map fun t => " " ++ tokS t) ++ ")"
+partial def partS : SPart → String
+  | .lit x => s!" (L {encS x})"
+  | .interp t => s!" (T {tokS t})"
+  | .chr c => s!" (C {c.toNat})"
+end
+
+mutual
 partial def termS : Term → String
   | .id => "Id"
   | .recurse => "Rec"
@@ -332,9 +348,9 @@ def handlers : List (String × Handler) := [
   ("c15.lex", fun toks =>
     match toks with
     | [h] => match textOfHex h with
-      | some s => (match lex s with | some ts => s!"OK {ts.length}" | none => "ERR")
+      | some s => (match lex s with | some ts => "OK" ++ String.join (ts.map fun t => " " ++ tokS t) | none => "ERR")
       | none => "bad-request"
-    | [] => "OK 0"
+    | [] => "OK"
     | _ => "bad-request")
 ]
 
